@@ -36,6 +36,7 @@ from typing import Any, Iterable
 
 from harness.common import (MachineryError, PY, REPO, SPEC, Verdict, coverage_summary, parse_args,
                             repo_env, sany, scratch, tlc)
+from harness.drivers import c01_ovr, c01_seq
 
 PID = "C01"
 NPROC = max(2, min(12, (os.cpu_count() or 4) - 2))
@@ -831,6 +832,16 @@ def tlc_plan(tier: str, seed: int) -> list[dict[str, Any]]:
                      "simulate": "num=%d" % nsim, "seed": seed + 1})
     for m in muts:
         plan.append({"name": "mut-" + m, "kind": "mut", "cfg": "Mut_FlowTyping_%s.cfg" % m, "workers": 2})
+    # fragment 2: sequence patterns (spec/SeqMatch.tla); fragment 3: overrides across hierarchies (spec/Override.tla)
+    for m in (["Q1", "Q2", "Q3", "Q4"] if tier == "quick" else ["Q1", "Q2", "Q3", "Q4", "T1", "T2"]):
+        plan.append({"name": "seq-" + m, "kind": "seq", "module": "MC_SeqMatch", "cfg": "MC_SeqMatch_%s.cfg" % m, "workers": 2})
+    plan.append({"name": "seq-hole", "kind": "seqfinding", "module": "MC_SeqMatch", "cfg": "Finding_SeqMatch_Hole.cfg", "workers": 2})
+    for m in (["offbyone"] if tier == "quick" else ["offbyone", "homirref"]):
+        plan.append({"name": "seqmut-" + m, "kind": "mut", "module": "MC_SeqMatch", "cfg": "Mut_SeqMatch_%s.cfg" % m, "workers": 2})
+    for m in (["3"] if tier == "quick" else ["3", "4"]):
+        plan.append({"name": "ovr-" + m, "kind": "ovr", "module": "MC_Override", "cfg": "MC_Override_%s.cfg" % m, "workers": 3})
+    for m in (["direct"] if tier == "quick" else ["direct", "nomi"]):
+        plan.append({"name": "ovrmut-" + m, "kind": "mut", "module": "MC_Override", "cfg": "Mut_Override_%s.cfg" % m, "workers": 2})
     return plan
 
 
@@ -854,13 +865,15 @@ def main(argv: list[str]) -> int:
         return 1 if res["bad"] else 0
 
     sany(os.path.join(SPEC, "MC_FlowTyping.tla"))
+    sany(os.path.join(SPEC, "MC_SeqMatch.tla"))
+    sany(os.path.join(SPEC, "MC_Override.tla"))
 
     # ---- 1. TLC: exhaustive slices (invariants + emission), simulation (emission), specification mutants
     from concurrent.futures import ThreadPoolExecutor
     plan = tlc_plan(tier, seed)
 
     def run_one(job: dict[str, Any]) -> Any:
-        r = tlc("MC_FlowTyping", job["cfg"], workers=job["workers"], timeout=1500 if tier == "thorough" else 400,
+        r = tlc(job.get("module", "MC_FlowTyping"), job["cfg"], workers=job["workers"], timeout=1500 if tier == "thorough" else 400,
                 simulate=job.get("simulate"), seed=job.get("seed"), depth=150 if job["kind"] == "sim" else None,
                 coverage=job["kind"] == "mc", heap="3g" if job["kind"] == "mut" else "6g")
         return r
@@ -875,6 +888,9 @@ def main(argv: list[str]) -> int:
     spec_violated: list[str] = []
     mut: dict[str, Any] = {}
     model_finding: dict[str, Any] = {}
+    seq_finding: dict[str, Any] = {}
+    seq_recs: dict[str, dict[str, Any]] = {}
+    ovr_recs: dict[str, dict[str, Any]] = {}
     fired: set[str] = set()
     all_actions: set[str] = set()
     for job, r in zip(plan, results):
@@ -882,7 +898,7 @@ def main(argv: list[str]) -> int:
             raise MachineryError("TLC %s: %s" % (job["cfg"], r.error))
         if job["kind"] == "mut":
             mut[job["name"]] = r.violated
-            if r.violated not in ("MemberOK", "RevealOK", "ReachOK", "NoWrong"):
+            if r.violated not in ("MemberOK", "RevealOK", "ReachOK", "NoWrong", "ReachSound", "CaptureSound", "Sound"):
                 raise MachineryError("specification mutant %s not rejected: %s" % (job["name"], r.violated))
             continue
         if job["kind"] == "finding":
@@ -891,6 +907,30 @@ def main(argv: list[str]) -> int:
             model_finding = {"cfg": job["cfg"], "violated": r.violated, "states": r.distinct}
             states += r.distinct
             transitions += r.generated
+            continue
+        if job["kind"] == "seqfinding":
+            seq_finding = {"cfg": job["cfg"], "violated": r.violated, "states": r.distinct}
+            states += r.distinct
+            transitions += r.generated
+            continue
+        if job["kind"] in ("seq", "ovr"):
+            if r.violated:
+                raise MachineryError("%s: specification invariant %s violated" % (job["cfg"], r.violated))
+            states += r.distinct
+            transitions += r.generated
+            arrs = r.json_lines("SEQ" if job["kind"] == "seq" else "OVR")
+            if len(arrs) < 50:
+                raise MachineryError("%s emitted only %d programs" % (job["cfg"], len(arrs)))
+            cov[job["name"]] = {"states": r.distinct, "transitions": r.generated, "programs": len(arrs),
+                                "wall_s": round(r.wall, 1), "exhaustive": True}
+            if job["kind"] == "seq":
+                for a in arrs:
+                    rec2 = c01_seq.decode(a)
+                    seq_recs.setdefault(c01_seq.key_of(rec2), rec2)
+            else:
+                for a in arrs:
+                    rec2 = c01_ovr.decode(a)
+                    ovr_recs.setdefault(c01_ovr.key_of(rec2), rec2)
             continue
         if job["kind"] == "fixcheck":
             if r.violated:
@@ -966,6 +1006,20 @@ def main(argv: list[str]) -> int:
         cli2 = cli2_async.get()
         cli = {"functions": cli["functions"] + cli2["functions"], "probes_compared": cli["probes_compared"] + cli2["probes_compared"],
                "differences": cli["differences"] + cli2["differences"], "n_diff": cli["n_diff"] + cli2["n_diff"]}
+    # ---- 3b. fragment 2 (sequence patterns) and fragment 3 (overrides): real mypy with the real typeshed + CPython
+    seq_all = [seq_recs[k] for k in sorted(seq_recs)]
+    seq_norm = [x for x in seq_all if not x["crash"]]
+    seq_crash = [x for x in seq_all if x["crash"]][: (40 if tier == "quick" else 150)]
+    ovr_all = [ovr_recs[k] for k in sorted(ovr_recs)]
+    rnd.shuffle(seq_norm)
+    rnd.shuffle(ovr_all)
+    sjobs = [(i, seq_norm[c:c + 300], root) for i, c in enumerate(range(0, len(seq_norm), 300))]
+    cjobs = [(i, x, root) for i, x in enumerate(seq_crash)]
+    ojobs = [(i, ovr_all[c:c + 120], root) for i, c in enumerate(range(0, len(ovr_all), 120))]
+    with ctx.Pool(NPROC) as pool:
+        sout = pool.map(c01_seq.check_chunk, sjobs, chunksize=1)
+        cout = pool.map(c01_seq.check_crash, cjobs, chunksize=2)
+        oout = pool.map(c01_ovr.check_chunk, ojobs, chunksize=1)
     t_replay = time.time() - t0
 
     # ---- 4. verdicts
@@ -1006,6 +1060,29 @@ def main(argv: list[str]) -> int:
         v.violation(key, {"rec": mrec, "arg": a["arg"], "conds": a["conds"], "kind": a["kind"], "found_as": bd["prog"],
                           "python": render_module([mrec]).text.split("\n")},
                     "mypy accepts `%s` but under CPython (x=%s, cond()=%s): %s" % (prog, a["arg"], a["conds"], a["what"]))
+    seq_drift = [d for res in sout for d in res["drift"]]
+    seq_bad = sorted((b for res in sout for b in res["bad"]), key=lambda b: (len(b["prog"]), b["prog"]))
+    crash_unconfirmed = [c["prog"] for c in cout if not c["crashed"]]
+    ovr_drift = [d for res in oout for d in res["drift"]]
+    ovr_bad = sorted((b for res in oout for b in res["bad"]), key=lambda b: (len(b["prog"]), b["prog"]))
+    for bd in seq_bad[:400]:
+        again = c01_seq.recheck(bd["rec"], root)
+        if not again:
+            raise MachineryError("sequence-pattern violation not reproduced in isolation: " + bd["prog"])
+        v.violation("unsound-seq:%s:%s" % (again[0]["kind"], bd["prog"]),
+                    {"fragment": "seqmatch", "rec": bd["rec"], "value": again[0]["value"], "spec_status": bd["status"],
+                     "python": c01_seq.render([dict(bd["rec"])])[0].split("\n")},
+                    "mypy accepts `%s` but under CPython (t=%s): %s" % (bd["prog"], again[0]["value"], again[0]["what"]))
+    for bd in ovr_bad[:100]:
+        full = next(x for x in ovr_all if c01_ovr.key_of(x) == bd["prog"])
+        again = c01_ovr.check_chunk((-1, [full], root))["bad"]
+        if not again:
+            raise MachineryError("override violation not reproduced in isolation: " + bd["prog"])
+        v.violation("unsound-ovr:%s:%s" % (again[0]["kind"], bd["prog"]),
+                    {"fragment": "override", "rec": bd["rec"], "python": c01_ovr.render([full])[0].split("\n")},
+                    "mypy accepts the classes of `%s` but under CPython: %s" % (bd["prog"], again[0]["what"]))
+    for d in (seq_drift + ovr_drift)[:10]:
+        print("MODEL-DRIFT: %s -- %s" % (d["prog"], d["why"]), flush=True)
     for d in drift[:10]:
         print("MODEL-DRIFT: %s -- %s (%s)" % (d["prog"], d["why"],
               "mypy rejects the program" if not d["accepted_by_mypy"] else
@@ -1029,13 +1106,26 @@ def main(argv: list[str]) -> int:
     if len(drift) > max(3, len(recs_all) // 100):
         complaints.append("model drift on %d of %d programs: the specification no longer describes mypy (first: %s -- %s)"
                           % (len(drift), len(recs_all), drift[0]["prog"], drift[0]["why"]))
+    if not sout or not oout or sum(r["executions"] for r in sout) == 0 or sum(r["executions"] for r in oout) == 0:
+        complaints.append("the sequence-pattern / override replay did not run")
+    if len(seq_drift) > max(3, len(seq_norm) // 100):
+        complaints.append("sequence patterns: model drift on %d of %d programs (first: %s -- %s)"
+                          % (len(seq_drift), len(seq_norm), seq_drift[0]["prog"], seq_drift[0]["why"]))
+    if len(ovr_drift) > max(3, len(ovr_all) // 100):
+        complaints.append("overrides: model drift on %d of %d hierarchies (first: %s -- %s)"
+                          % (len(ovr_drift), len(ovr_all), ovr_drift[0]["prog"], ovr_drift[0]["why"]))
+    if len(crash_unconfirmed) > max(2, len(cout) // 10):
+        complaints.append("predicted mypy crashes not observed: %s" % crash_unconfirmed[:3])
+    if seq_finding and not seq_finding.get("violated"):
+        complaints.append("%s: TLC no longer produces the counterexample of finding C01/2" % seq_finding["cfg"])
     if complaints and not v.violations:
         raise MachineryError("; ".join(complaints))
     v.notes += complaints
 
     coverage = {
         "states": states, "transitions": transitions,
-        "traces_validated_against_impl": len(recs_all) - len({d["prog"].replace(VARIANT_NOTE, "") for d in drift}),
+        "traces_validated_against_impl": (len(recs_all) - len({d["prog"].replace(VARIANT_NOTE, "") for d in drift})
+                                          + len(seq_norm) - len(seq_drift) + len(ovr_all) - len(ovr_drift)),
         "programs_replayed": len(recs_all),
         "modules_checked_by_mypy": len(jobs),
         "E_programs_replayed_in_both_class_variants": len(recs_E),
@@ -1046,7 +1136,21 @@ def main(argv: list[str]) -> int:
         "perturbations": {"base_programs": len(base), "perturbed_programs": len(precs), "accepted_by_mypy": p_acc,
                           "failing_at_runtime": ptot["runtime_failures"], "failing_and_rejected": ptot["rejected_failing"],
                           "executions": ptot["executions"]},
-        "evaluations": tot["executions"] + ptot["executions"],
+        "seqmatch": {"programs_replayed": len(seq_norm), "accepted_by_mypy": sum(r["accepted"] for r in sout),
+                     "rejected_by_mypy_unmodelled": sum(r["rejected"] for r in sout),
+                     "case_verdicts_compared": sum(r["probes"] for r in sout),
+                     "cpython_executions": sum(r["executions"] for r in sout),
+                     "model_drift": {"programs": len(seq_drift), "samples": seq_drift[:5]},
+                     "violating_programs": len(seq_bad),
+                     "predicted_crashes_replayed": len(cout), "crashes_confirmed": len(cout) - len(crash_unconfirmed),
+                     "model_level_finding": seq_finding,
+                     "sample": next((r["sample"] for r in sout if r["sample"]), None)},
+        "override": {"hierarchies_replayed": len(ovr_all), "instance_classes_accepted": sum(r["instances_accepted"] for r in oout),
+                     "cpython_executions": sum(r["executions"] for r in oout),
+                     "model_drift": {"hierarchies": len(ovr_drift), "samples": ovr_drift[:5]},
+                     "violating_hierarchies": len(ovr_bad),
+                     "sample": next((r["sample"] for r in oout if r["sample"]), None)},
+        "evaluations": tot["executions"] + ptot["executions"] + sum(r["executions"] for r in sout) + sum(r["executions"] for r in oout),
         "distinct_nontrivial": n_acc + p_acc,
         "rule": "every program TLC emits (all programs of each exhaustive slice up to its statement bound + simulated larger "
                 "programs, seeded) is replayed: real mypy on the module, Gamma compared at every probe, then CPython on every "
